@@ -370,6 +370,17 @@ func (c C07Case) emit1() c07Obs {
 	if warm {
 		e.InfoContext(ctx, "a small record first", "k", 1)
 	}
+	if !fresh { // (a case that starts on emptied pools keeps them: no other record first)
+		hp := len(c.Msg)*5 + len(c.Ctx)*3 + len(c.Chain)
+		for _, sg := range c.Args {
+			hp += 7 * len(sg.Items)
+		}
+		inh := slog.IsAnyBitsSet(slog.LattrsR)
+		historyPrelude(hp)
+		if inh != slog.IsAnyBitsSet(slog.LattrsR) {
+			panic("prelude changed the flags")
+		}
+	}
 	if twice {
 		call()
 		args = c07Raw(c.Args) // the same values, built again
